@@ -64,6 +64,15 @@ fn rounds(out: &mut NdjsonOut, rng: &mut Rng, case: u64, mut file: Vec<u8>, g: &
             let v = g.object(rng, 1);
             inc.new_document.trailer.set("Info", v);
         }
+        // every third round: the same IncrementalDocument has already been saved once (to a sink that is thrown away) and was
+        // then edited again - saving must not leave state behind that the next save of the same value trips over
+        if (case + round as u64) % 3 == 1 {
+            let mut scratch = Vec::new();
+            let _ = guarded(|| inc.save_to(&mut scratch));
+            if rng.chance(1, 2) {
+                inc.new_document.add_object(Object::Integer(round as i64 + 1000));
+            }
+        }
         let newdoc = doc_to_tla(&inc.new_document);
         let mut outb = Vec::new();
         let res = match guarded(|| inc.save_to(&mut outb)) {
